@@ -27,7 +27,8 @@ def inOf? (j : Json) : Option In := do
 def envOf? (j : Json) : Option Env := do
   let b (k : String) : Option Bool := do jBool? (← jField? j k)
   some { consistent := ← b "consistent", merge := ← b "merge", otherChanging := ← b "otherChanging",
-         otherDelays := ← b "otherDelays", mergeChanges := ← b "mergeChanges", delReset := ← b "delReset" }
+         otherDelays := ← b "otherDelays", mergeChanges := ← b "mergeChanges", userFns := ← b "userFns",
+         delReset := ← b "delReset" }
 
 def snapOf? (j : Json) : Option Snap := do
   some { rv := ← jNat? (← jField? j "rv"), marked := ← jBool? (← jField? j "marked"),
@@ -139,7 +140,7 @@ def handle : DrvHandler := fun op args =>
                          rv := 0, matchDel := ← jBool? (← jField? init "matchDel"), matchDmn := ← jBool? (← jField? init "matchDmn"),
                          delDone := false, dmnLive := false, dmnForever := false, mem := [], pending := none }
       let s : LState := { base := b, queue := [snap b], sleeping := false, cycDelays := false, cycMerge := false,
-                          cycChanges := false, cycViewRv := 0 }
+                          cycChanges := false, cycViewRv := 0, cycUserFns := false }
       some (ok (replay own s 0 (← jArr? items)))
   | _, _ => none
 
